@@ -7,6 +7,9 @@ From Ont Require Import Proofs.BloomFilter Proofs.BloomIndex Proofs.BloomCompres
 Local Open Scope N_scope.
 Ltac Zify.zify_post_hook ::= Z.to_euclidean_division_equations.
 
+Lemma some_inj {A : Type} (a b : A) : Some a = Some b -> a = b.
+Proof. intro H; injection H; auto. Qed.
+
 Definition wfb (b : bloom) : Prop := N.of_nat (length b) = BloomByteLength.
 
 (** the bloom [GetBloomData] returns *)
@@ -122,7 +125,7 @@ Proof.
     symmetry; apply nthB_app_old; exact H1.
   - intros h' H1 H2. destruct (N.eqb_spec h' h) as [->|Hne]; [exfalso; apply Hcontra; exact H2|].
     rewrite nthB_app_old by (fold h; lia). apply Ihave; [fold h; lia|exact H2].
-  - intros i s v Hi Hs E. destruct (Ibits i s v Hi Hs E) as [H1 [H2 H3]]. fold h in H2. repeat split; [exact H1|lia|exact H3].
+  - intros i s v Hi Hs E. destruct (Ibits i s v Hi Hs E) as [H1 [H2 H3]]. fold h in H2. split; [|split]; [exact H1|lia|exact H3].
   - intros s i H1 H2 H3. apply Ibh; [|exact H2|exact H3]. fold h.
     destruct (N.eqb_spec ((s + 1) * S) (h + 1)) as [E|Hne]; [exfalso; apply Hcontra; lia|lia].
 Qed.
@@ -176,7 +179,7 @@ Proof.
     + rewrite kv_get_put_other by (intro E2; apply bloom_key_inj in E2; unfold U32 in *; lia).
       rewrite nthB_app_old by (fold h; lia). apply Ihave; [fold h; lia|exact H2].
   - intros i s v Hi Hs E. rewrite kv1_bits in E. destruct (Ibits i s v Hi Hs E) as [H1 [H2 H3]]. fold h in H2.
-    repeat split; [exact H1|lia|]. rewrite kv1_sec_vec by exact H2. exact H3.
+    split; [|split]; [exact H1|lia|]. rewrite kv1_sec_vec by exact H2. exact H3.
   - intros s i H1 H2 H3. rewrite kv1_bits. apply Ibh; [|exact H2|exact H3]. fold h.
     destruct (N.eqb_spec ((s + 1) * S) (h + 1)) as [E|Hne]; [|lia].
     exfalso; apply Hnt. rewrite <- E. apply N.mod_mul. discriminate.
@@ -253,15 +256,15 @@ Proof.
       rewrite nthB_app_old by (fold h; lia). apply Ihave; [fold h; lia|exact H2].
   - intros i s v Hi Hs E.
     destruct (N.eqb_spec s sec) as [->|Hns]; [destruct (N.ltb_spec i BloomBitLength) as [Hib|Hib]|].
-    + rewrite kv2_bits_new in E by assumption. injection E as <-.
-      repeat split; [exact Hib|lia|]. f_equal. rewrite gen_vectors_nth by exact Hib.
+    + rewrite kv2_bits_new in E by assumption. apply some_inj in E. subst v.
+      split; [|split]; [exact Hib|lia|]. apply (f_equal compress_bytes). rewrite gen_vectors_nth by exact Hib.
       unfold sec_vec, bl. rewrite map_map. replace (sec * S) with (h + 1 - S) by lia.
-      f_equal. apply map_ext; intro k. rewrite kv2_stored. reflexivity.
+      apply (f_equal pack8). apply map_ext; intro k. rewrite kv2_stored. reflexivity.
     + rewrite kv2_bits_old in E by (try assumption; right; exact Hib).
       destruct (Ibits i sec v Hi Hs E) as [H1 _]. lia.
     + rewrite kv2_bits_old in E by (try assumption; left; exact Hns).
       destruct (Ibits i s v Hi Hs E) as [H1 [H2 H3]]. fold h in H2.
-      repeat split; [exact H1|lia|]. rewrite H3. f_equal.
+      split; [|split]; [exact H1|lia|]. rewrite H3. apply (f_equal compress_bytes). symmetry.
       apply sec_vec_ext. intros k Hk. rewrite kv2_stored. apply kv1_stored_old. lia.
   - intros s i H1 H2 H3.
     destruct (N.eqb_spec s sec) as [->|Hns].
